@@ -378,6 +378,75 @@ async fn after_failed_handshake(ctx: &Ctx, epmd: &net::EpmdTable, round: usize) 
     }
 }
 
+/// One frame far larger than the socket buffers, written while the peer is not reading yet, followed by a small
+/// one: the kernel takes the big frame in several pieces (short writes), and both frames must arrive whole.
+async fn big_frames(ctx: &Ctx, epmd: &net::EpmdTable, round: usize) {
+    for (k, (header_mode, size)) in [(false, 6usize << 20), (true, 6 << 20), (true, 1 << 20), (false, 13 << 20), (true, 13 << 20)].into_iter().enumerate() {
+        if ctx.quick() && k >= 3 {
+            break;
+        }
+        ctx.beat(&format!("big-frames/{}", round));
+        let name = format!("b{}x{}", round, k);
+        let pl = net::listen_as(epmd, &name).await;
+        let own_flags = DistributionFlags::default().as_u64() | if header_mode { FLAG_DIST_HDR_ATOM_CACHE } else { 0 };
+        let peer_task = tokio::spawn(async move {
+            let mut peer = pl.accept("cookie", PEER_BASE_FLAGS | FLAG_DIST_HDR_ATOM_CACHE, 81).await.ok()?;
+            peer.handshake().await.ok()?;
+            // not reading for a while: the client's writes fill the socket buffers
+            tokio::time::sleep(Duration::from_millis(400)).await;
+            let a = tokio::time::timeout(Duration::from_secs(20), peer.read_frame4()).await.ok()?.ok()?;
+            let b = tokio::time::timeout(Duration::from_secs(5), peer.read_frame4()).await.ok().and_then(|r| r.ok());
+            Some((a, b))
+        });
+        let cfg = ConnectionConfig::new("rust@127.0.0.1", format!("{}@127.0.0.1", name), "cookie")
+            .with_epmd_host("127.0.0.1")
+            .with_flags(DistributionFlags::new(own_flags))
+            .with_timeout(Duration::from_secs(10));
+        let mut conn = Connection::new(cfg);
+        if let Err(e) = conn.connect().await {
+            ctx.inconclusive(&format!("handshake with the scripted peer failed: {}", e));
+            peer_task.abort();
+            continue;
+        }
+        let mode = if header_mode { "header" } else { "pass-through" };
+        let from = ExternalPid::new(Atom::new("rust@127.0.0.1"), 7, 0, 9);
+        let to = ExternalPid::new(Atom::new(&format!("{}@127.0.0.1", name)), 5, 0, 1);
+        let payload: Vec<u8> = (0..size).map(|i| (i as u32).wrapping_mul(2654435761).to_be_bytes()[0]).collect();
+        let r1 = conn.send_message(from.clone(), to.clone(), OwnedTerm::Binary(payload.clone())).await;
+        let r2 = conn.link(&from, &to).await;
+        ctx.eval(2);
+        ctx.class(&format!("big-frame/{}/{}MiB", mode, size >> 20));
+        let wit = |d: serde_json::Value| json!({"mode": mode, "payload_bytes": size, "detail": d});
+        if r1.is_err() || r2.is_err() {
+            ctx.viol(&format!("C07:operation-failed:big-frame:{}", mode), "sending a large frame to a peer that reads late failed", wit(json!({"send": format!("{:?}", r1.err().map(|e| e.to_string())), "link": format!("{:?}", r2.err().map(|e| e.to_string()))})));
+            peer_task.abort();
+            continue;
+        }
+        let got = tokio::time::timeout(Duration::from_secs(40), peer_task).await;
+        let mut cache = ReceiverCache::default();
+        match got {
+            Ok(Ok(Some((a, b)))) => {
+                let first = read_frame(&a, header_mode, &mut cache);
+                let ok1 = matches!(&first, Ok((c, Some(Val::Bits { bytes, bits }))) if *bits == size as u64 * 8 && bytes == &payload && matches!(c, Val::Tuple(t) if t.first() == Some(&Val::int(2))));
+                let ok2 = match &b {
+                    Some(b) => matches!(read_frame(b, header_mode, &mut cache), Ok((Val::Tuple(t), None)) if t.first() == Some(&Val::int(1))),
+                    None => false,
+                };
+                if !ok1 || !ok2 {
+                    let first_len = a.len();
+                    ctx.viol(
+                        &format!("C07:big-frame-damaged:{}", mode),
+                        "a frame larger than the socket buffers (or the frame after it) did not arrive as written",
+                        wit(json!({"first_frame_len": first_len, "first_frame_ok": ok1, "second_frame_ok": ok2, "first_frame_error": first.err(), "second_frame": b.as_ref().map(|x| hex_cap(x, 32))})),
+                    );
+                }
+            }
+            _ => ctx.viol(&format!("C07:big-frame-damaged:{}", mode), "the peer could not read the large frame and the one after it", wit(json!({"peer": "no complete frames within 40 s"}))),
+        }
+        let _ = conn.close().await;
+    }
+}
+
 /// Many tasks sending through one Node; the peer's byte stream must split into whole frames.
 async fn concurrent(ctx: &Ctx, rng: &mut Rng, epmd: &net::EpmdTable, run_id: usize, with_yields: bool) {
     ctx.beat(&format!("concurrent/{}", run_id));
@@ -556,7 +625,7 @@ async fn concurrent(ctx: &Ctx, rng: &mut Rng, epmd: &net::EpmdTable, run_id: usi
 }
 
 pub fn run(ctx: &Ctx) {
-    ctx.rule("(1) every operation (send, send_to_name, link, unlink, monitor, demonitor) x argument classes (plain and node-local pids, names of 0..255 chars incl. non-ASCII, payloads from the term generator, unlink ids over the 64-bit range, references of 1..3 words) x both framing modes against a directly driven Connection, each frame read by an independent implementation; operations before the handshake and after a handshake that failed at its last steps (wrong ack digest, refusal status, short ack, close), with the peer recording any byte that still arrives; (2) 2..64 tasks x 5..40 operations through one Node on a current-thread runtime with seeded yields at the partial-write hooks and on a multi-thread runtime; evaluations = operations judged; distinct = distinct (mode, operation, argument class) + concurrency configurations + observed frame interleavings (hash of the caller sequence at the peer)");
+    ctx.rule("(1) every operation (send, send_to_name, link, unlink, monitor, demonitor) x argument classes (plain and node-local pids, names of 0..255 chars incl. non-ASCII, payloads from the term generator, unlink ids over the 64-bit range, references of 1..3 words) x both framing modes against a directly driven Connection, each frame read by an independent implementation; operations before the handshake and after a handshake that failed at its last steps (wrong ack digest, refusal status, short ack, close), with the peer recording any byte that still arrives; frames of 1..13 MiB written while the peer is not reading yet, followed by a small frame, in both modes; (2) 2..64 tasks x 5..40 operations through one Node on a current-thread runtime with seeded yields at the partial-write hooks and on a multi-thread runtime; evaluations = operations judged; distinct = distinct (mode, operation, argument class) + concurrency configurations + observed frame interleavings (hash of the caller sequence at the peer)");
     ctx.assume("unique ids travel in the payload, or in the `from` pid for payload-less operations");
     let mut rng = Rng::derive(ctx.seed, 7, 1);
     {
@@ -567,6 +636,9 @@ pub fn run(ctx: &Ctx) {
                 single_ops(ctx, &mut rng, &epmd, false, round).await;
                 single_ops(ctx, &mut rng, &epmd, true, round).await;
                 after_failed_handshake(ctx, &epmd, round).await;
+                if round == 0 || !ctx.quick() {
+                    big_frames(ctx, &epmd, round).await;
+                }
             }
             for r in 0..ctx.pick(25usize, 2500usize) {
                 if !ctx.time_left() {
